@@ -190,7 +190,7 @@ def rand_module(ctx, n_pat, n_tree):
 # ---------------------------------------------------------------------------------------------
 
 def tlc_gen(ctx, module, cfg, what, extra=None, timeout=3000):
-    r = vlib.run_tlc(ctx, module, cfg, workers=min(vlib.NCPU, 8), timeout=timeout, keep_cases=False, extra_files=extra)
+    r = vlib.run_tlc(ctx, module, cfg, workers=int(os.environ.get("VERIF_TLC_WORKERS", "8")), timeout=timeout, keep_cases=False, extra_files=extra)
     vlib.tlc_require_ok(r, what)
     if r.distinct == 0:
         raise Inconclusive("TLC explored no state for %s" % what)
@@ -225,14 +225,23 @@ def report(ctx, mism, summary):
     differences of the two spellings are drift"""
     seen = set()
     drift = 0
+    # interleave the kinds so that the first reports show every way the code deviates
+    by_kind = {}
     for m in mism:
+        by_kind.setdefault(m["kind"], []).append(m)
+    order = []
+    while any(by_kind.values()):
+        for k in sorted(by_kind):
+            if by_kind[k]:
+                order.append(by_kind[k].pop(0))
+    for m in order:
         if m["kind"] == "parse-diff":
             drift += 1
             ctx.note("drift: spellings parse differently: %s (%s)" % (m["pattern"], m.get("detail", "")[:200]))
             continue
         if m["kind"] == "parse":
             raise Inconclusive("renderer produced a pattern the parser rejects: %s: %s" % (m["pattern"], m.get("detail")))
-        key = vlib.canon_key({"p": m["p"], "t": m["t"]})
+        key = vlib.canon_key({"p": m["p"], "kind": m["kind"]})      # one report per abstract pattern and kind
         if key in seen:
             continue
         seen.add(key)
